@@ -20,9 +20,8 @@
      an enclosing class (LOAD_NAME).  getattr on a class: own namespace, then the base (one base at most).
    - `from X import *` (module level only): __all__ of X if present, else X's public names.
 
-   Two presentations: inductive relations (used by the theorems; star-free) and a fuelled evaluator
-   [ev] (run by the harness, validated against CPython; Proofs/NamesProofs.v proves
-   ev sound w.r.t. the relations on star-free projects). *)
+   Two presentations: inductive relations (used by the theorems) and a fuelled evaluator [ev] (run by the
+   harness, validated against CPython; Proofs/NamesProofs.v proves ev sound w.r.t. the relations). *)
 From Coq Require Import NArith List Bool Arith.
 From PydoctorVerif Require Import Base.ImportSyntax.
 Import ListNotations.
@@ -46,77 +45,17 @@ Definition resolve_relative (mpath : path) (is_pkg : bool) (level : nat) (modnam
     end
   end.
 
-(* ---------------------------------------------------------------- which statement binds a name *)
-Inductive binder :=
-| BClass (base : option path) (body : list stmt)
-| BDef
-| BImportTop (a : name)
-| BImportAs (t : path)
-| BFrom (level : nat) (modname : path) (orig : name)
-| BAlias (expr : path).
-
-Fixpoint from_binder (level : nat) (modname : path) (names : list (name * option name)) (n : name) : option binder :=
-  match names with
-  | [] => None
-  | (orig, asname) :: rest =>
-    match from_binder level modname rest n with
-    | Some b => Some b
-    | None => if N.eqb (match asname with Some a => a | None => orig end) n
-              then Some (BFrom level modname orig) else None
-    end
+(* names a module hands out to `from X import *`: __all__ if present, else its public names *)
+Definition exported (P : project) (X : path) (n : name) : bool :=
+  match find_module P X with
+  | Some mx => match m_all mx with
+               | Some l => mem_name n l
+               | None => negb (is_private n)
+               end
+  | None => false
   end.
 
-Definition stmt_binder (s : stmt) (n : name) : option binder :=
-  match s with
-  | SImport (a :: _) None => if N.eqb a n then Some (BImportTop a) else None
-  | SImport t (Some c) => if N.eqb c n then Some (BImportAs t) else None
-  | SImport [] None => None
-  | SFrom level modname names => from_binder level modname names n
-  | SStar _ _ => None
-  | SClass c base body => if N.eqb c n then Some (BClass base body) else None
-  | SDef f => if N.eqb f n then Some BDef else None
-  | SAlias x e => if N.eqb x n then Some (BAlias e) else None
-  end.
-
-(* the LAST statement of the body that binds n wins *)
-Fixpoint binder_of (body : list stmt) (n : name) : option binder :=
-  match body with
-  | [] => None
-  | s :: rest =>
-    match binder_of rest n with
-    | Some b => Some b
-    | None => stmt_binder s n
-    end
-  end.
-
-Fixpoint descend (body : list stmt) (qual : path) : option (list stmt) :=
-  match qual with
-  | [] => Some body
-  | c :: r => match binder_of body c with
-              | Some (BClass _ b) => descend b r
-              | _ => None
-              end
-  end.
-
-Definition scope_body (P : project) (m qual : path) : option (list stmt) :=
-  match find_module P m with
-  | Some mm => descend (m_body mm) qual
-  | None => None
-  end.
-
-Definition class_base (P : project) (m qual : path) : option path :=
-  match qual with
-  | [] => None
-  | _ => match scope_body P m (removelast qual) with
-         | Some body => match binder_of body (last qual 0%N) with
-                        | Some (BClass base _) => base
-                        | _ => None
-                        end
-         | None => None
-         end
-  end.
-
-(* ---------------------------------------------------------------- relations (star-free) *)
+(* ---------------------------------------------------------------- relations *)
 Section Rel.
   Variable P : project.
 
@@ -127,6 +66,11 @@ Section Rel.
   | ns_submod : forall m mm n,
       find_module P m = Some mm -> m_pkg mm = true -> binder_of (m_body mm) n = None ->
       is_module P (m ++ [n]) = true -> py_ns m [] n (VMod (m ++ [n]))
+  | ns_star : forall m mm level modname X n v,
+      (* `from X import *` at module level binds every exported name that X has *)
+      find_module P m = Some mm -> In (SStar level modname) (m_body mm) ->
+      resolve_relative m (m_pkg mm) level modname = Some X -> is_module P X = true -> path_eqb X m = false ->
+      exported P X n = true -> py_ns X [] n v -> py_ns m [] n v
   with py_binder : path -> path -> name -> binder -> value -> Prop :=
   | pb_class : forall m qual n base body, py_binder m qual n (BClass base body) (VObj m (qual ++ [n]))
   | pb_def : forall m qual n, py_binder m qual n BDef (VObj m (qual ++ [n]))
@@ -179,15 +123,6 @@ Inductive req :=
 | RName (m qual : path) (d : name)
 | REval (m qual : path) (expr : path).
 
-Definition exported (P : project) (X : path) (n : name) : bool :=
-  match find_module P X with
-  | Some mx => match m_all mx with
-               | Some l => mem_name n l
-               | None => negb (is_private n)
-               end
-  | None => false
-  end.
-
 (* the last statement of a body that binds n decides; a star import binds n only if the module exports it *)
 Section Scan.
   Variable n : name.
@@ -237,9 +172,9 @@ Section Eval.
             end in
           scan_body n
             (fun level modname =>
-               match resolve_relative m (m_pkg mm) level modname with
-               | Some X => if is_module P X && exported P X n then ev f (RNs X [] n) else None
-               | None => None
+               match qual, resolve_relative m (m_pkg mm) level modname with
+               | [], Some X => if is_module P X && negb (path_eqb X m) && exported P X n then ev f (RNs X [] n) else None
+               | _, _ => None
                end)
             ev_binder
             (match qual with
